@@ -6,7 +6,9 @@ A stream is a program of side A — synchronous calls, asynchronous calls, await
 requests whose arguments cannot be decoded (unknown handler, wrong arity, stale local id, hand-built frame
 with a bad label), hand-built response frames (duplicate, unmatched, stealing a pending waiter) — where every
 call carries a script for the remote handler: nested synchronous / asynchronous calls back to the caller,
-then one of the outcome classes value / reference / exception / unencodable result (int beyond the digit
+then one of the outcome classes value / reference / exception (an Exception, or a BaseException that is not one:
+asyncio.CancelledError, GeneratorExit, a user class, SystemExit, KeyboardInterrupt — the last two also with the serving
+side's propagate_*_locally switch on, where the configuration routes them locally) / unencodable result (int beyond the digit
 limit, tuple beyond the recursion limit) / exception that cannot itself be serialized (huge int argument,
 argument whose repr() raises).  A frame-level recorder (harness/protonet.py) turns what the transport saw
 (writes, header reads), what the handlers logged (outcome) and what the program did (await, failed send,
@@ -51,8 +53,9 @@ ASSUMPTIONS = [
     "the connection stays open during the stream (how it ends is C11); timeouts of waiters are C15",
     "a reply whose unboxing makes a nested HANDLE_INSPECT round trip (first proxy of a non-builtin class) is one "
     "delivery in the model; the streams return references to builtin classes only (lists, bound methods)",
-    "propagate_SystemExit_locally / propagate_KeyboardInterrupt_locally are off (default): with them on, those two "
-    "exceptions are re-raised locally by design instead of being answered",
+    "with propagate_SystemExit_locally / propagate_KeyboardInterrupt_locally on, that exception is re-raised locally by "
+    "design instead of being answered (outcome raiseLocal in the model; exercised, compared up to that point, and not "
+    "counted as a violation); every other BaseException is answered",
     "a handler that never returns gets no response (the statement speaks of requests that are executed)",
 ]
 EXPLANATION = ("Theorems over ALL event sequences of the ledger machine (any mix of sync/async/nested requests, any "
@@ -66,8 +69,24 @@ EXPLANATION = ("Theorems over ALL event sequences of the ledger machine (any mix
 LIMIT = sys.get_int_max_str_digits() or 4300
 BIG = 10 ** (LIMIT + 10)
 FINAL_CID = 9999
-OUTS = ["v", "r", "x", "ei", "ed", "pi", "pr"]
-MODEL_OUT = {"v": "v", "r": "r", "x": "x", "ei": "e", "ed": "e", "pi": "p", "pr": "p"}
+# x: an Exception; bc/bg/bb/bs/bk: BaseExceptions that are not Exceptions (asyncio.CancelledError, GeneratorExit, a user
+# class, SystemExit, KeyboardInterrupt) — answered like any other unless the side is configured to propagate bs / bk locally
+OUTS = ["v", "r", "x", "bc", "bg", "bb", "bs", "bk", "ei", "ed", "pi", "pr"]
+MODEL_OUT = {"v": "v", "r": "r", "x": "x", "bc": "b", "bg": "b", "bb": "b", "bs": "b", "bk": "b",
+             "ei": "e", "ed": "e", "pi": "p", "pr": "p"}
+LOCAL_SWITCH = {"SystemExit": "propagate_SystemExit_locally", "KeyboardInterrupt": "propagate_KeyboardInterrupt_locally"}
+LOCAL_OUT = {"SystemExit": "bs", "KeyboardInterrupt": "bk"}
+
+
+class Boom(BaseException):
+    """a user exception deriving from BaseException directly"""
+
+
+def base_exception(out, payload):
+    if out == "bc":
+        import asyncio
+        return asyncio.CancelledError(payload)
+    return {"bg": GeneratorExit, "bb": Boom, "bs": SystemExit, "bk": KeyboardInterrupt}[out](payload)
 INJECT_PAYLOAD = 7777
 
 
@@ -117,6 +136,10 @@ class Run(object):
         self.usable = None
         self.injected_seqs = set()
         self.skipped = []
+        self.local_exc = None
+        self.local = {}               # side -> "SystemExit" | "KeyboardInterrupt": its propagate_*_locally switch is on
+        if program and program[0][0] == "cfg":
+            self.local["B"] = program[0][1]
 
     # -- handlers
     def handle(self, side, script):
@@ -124,8 +147,15 @@ class Run(object):
         self.invoked.append((side, cid))
         for kind, sub in pre:
             self.call(side, kind, sub)
-        payload = 1000 + cid if out in ("v", "r", "x") else 0
-        self.rec.log(t="finish", side=side, cid=cid, out=MODEL_OUT[out], payload=payload)
+        payload = 1000 + cid if out in ("v", "r", "x") or out[0] == "b" else 0
+        # SystemExit / KeyboardInterrupt on a side configured to propagate it locally: not answered, by configuration
+        local = self.local.get(side) is not None and out == LOCAL_OUT[self.local[side]]
+        self.rec.log(t="finish", side=side, cid=cid, out="l" if local else MODEL_OUT[out], payload=payload)
+        if out[0] == "b":
+            exc = base_exception(out, payload)
+            if local:
+                self.local_exc = exc       # enclosing handlers of this side let it pass (see `call`)
+            raise exc
         if out == "v":
             return payload
         if out == "r":
@@ -188,6 +218,8 @@ class Run(object):
             try:
                 res = f(sub)
             except BaseException as ex:  # noqa
+                if ex is self.local_exc:
+                    raise       # the locally propagated SystemExit / KeyboardInterrupt unwinds every frame of its side
                 self.note(side, cid, *self.classify_exc(ex))
             else:
                 self.note(side, cid, *self.classify_val(res))
@@ -195,7 +227,11 @@ class Run(object):
                     self._last_ref = res      # kept until the next synchronous call of A (then HANDLE_DEL goes out)
                 res = None
         else:
-            ar = rpyc.async_(f)(sub)
+            try:
+                ar = rpyc.async_(f)(sub)
+            except BaseException as ex:  # noqa
+                self.note(side, cid, *self.classify_exc(ex))
+                return
             self.asyncs[(side, cid)] = ar
             ar.add_callback(lambda r, side=side, cid=cid: self.async_done(side, cid, r))
 
@@ -217,6 +253,8 @@ class Run(object):
     def action(self, i, act):
         ca, rec = self.ca, self.rec
         k = act[0]
+        if k == "cfg":
+            return
         if k in ("s", "a"):
             self.call("A", k, to_tuple(act[1]))
             if k == "a":
@@ -322,15 +360,28 @@ class Run(object):
             with net.installed():
                 sa, sb = Node(self, "A"), Node(self, "B")
                 # no compression, 10 virtual minutes per synchronous request
-                cfg = {"sync_request_timeout": 600}
+                # both propagate_*_locally switches are set explicitly (DEFAULT_CONFIG has the KeyboardInterrupt one ON,
+                # although its documentation table says False): off everywhere, except side B's as the program says
+                cfg = {"sync_request_timeout": 600, "propagate_SystemExit_locally": False,
+                       "propagate_KeyboardInterrupt_locally": False}
                 from rpyc.core.channel import Channel
                 stra, strb = net.stream_pair("A", "B")
                 self.rec = rec = protonet.Recorder(net)
                 rec.injecting = None
                 self._install_inject_tag()
+                cfg_b = dict(cfg)
+                if self.local.get("B"):
+                    cfg_b[LOCAL_SWITCH[self.local["B"]]] = True
                 self.ca = ca = sa._connect(Channel(stra, False), cfg)
-                self.cb = cb = sb._connect(Channel(strb, False), cfg)
-                net.spawn("B", cb.serve_all)
+                self.cb = cb = sb._connect(Channel(strb, False), cfg_b)
+
+                def b_main():
+                    try:
+                        cb.serve_all()
+                    except BaseException as ex:  # noqa  (whatever leaves serve_all ends side B's thread)
+                        self.b_exit = type(ex).__name__
+                self.b_exit = None
+                net.spawn("B", b_main)
                 self._last_ref = None
                 try:
                     root = ca.root
@@ -381,6 +432,9 @@ class Run(object):
                         e["injected"] = rec.injecting
         for s in self.net.streams.values():
             s.fault = hook
+
+    def local_fired(self):
+        return any(e["t"] == "finish" and e["out"] == "l" for e in self.rec.events)
 
     # -- observation
     def observe(self):
@@ -460,6 +514,8 @@ def model_tokens(run):
                     toks.append("F%s%s:0" % (side, "v" if k == consts.MSG_REPLY else "x"))
         elif t == "finish":
             toks.append("F%s%s:%d" % (side, e["out"], e["payload"]))
+            if e["out"] == "l":
+                break          # the exception leaves serve_all by configuration: the connection ends (C11 from here)
         elif t == "issuefail":
             toks.append("f" + side)
         elif t == "await":
@@ -491,6 +547,17 @@ def canonical(run, mline):
     pm = parse_model(mline)
     if pm is None:
         return ("(impl) " + " ".join(impl), "(model) " + mline)
+    if run.local_fired():
+        # configured local propagation: the serving side is gone; compared up to that point
+        n = len(pm["wire"])
+        impl = ["acc=all", "wire=" + ",".join(o["wire"][:n]), "execB=" + ",".join(map(str, o["execB"])),
+                "serving-side-ended=" + o["deadB"]]
+        peer_visible = set(q for (s_, _k), q in run.cid_seq.items() if s_ != "B")
+        mod = ["acc=all" if pm["acc"] == pm["total"] else "acc=%d/%d" % (pm["acc"], pm["total"]),
+               "wire=" + ",".join(pm["wire"]),
+               "execB=" + ",".join(str(q) for q in sorted(int(x) for x in pm["execB"]) if q in peer_visible),
+               "serving-side-ended=" + pm["deadB"][0]]
+        return " ".join(impl), " ".join(mod)
     mod.append("acc=all" if pm["acc"] == pm["total"] else "acc=%d/%d" % (pm["acc"], pm["total"]))
     mod.append("wire=" + ",".join(pm["wire"]))
     for side in "AB":
@@ -526,17 +593,26 @@ def gen_script(r, next_cid, depth, outs):
     return [cid, pre, r.choice(outs)]
 
 
-def gen_program(r, size, heavy):
-    """heavy: include the slow outcome classes (deep tuple, repr that raises)"""
-    outs = ["v", "v", "r", "x", "ei", "pi"] + (["ed", "pr"] if heavy else [])
+def gen_program(r, size, heavy, local=None):
+    """heavy: include the slow outcome classes (deep tuple, repr that raises); local: "SystemExit" | "KeyboardInterrupt":
+    side B propagates that exception locally, and only handlers at B's base level raise it"""
+    outs = ["v", "v", "r", "x", "bc", "bg", "bb", "bs", "bk", "ei", "pi"] + (["ed", "pr"] if heavy else [])
+    if local:
+        outs = [o for o in outs if o != LOCAL_OUT[local]]
     next_cid = [1]
-    prog = []
+    prog = [["cfg", local]] if local else []
+
+    def top(depth):
+        sc = gen_script(r, next_cid, depth, outs)
+        if local and r.chance(1, 3):
+            sc[2] = LOCAL_OUT[local]
+        return sc
     for _ in range(size):
         k = r.below(20)
         if k < 7:
-            prog.append(["s", gen_script(r, next_cid, r.choice([0, 1, 1, 2, 3]), outs)])
+            prog.append(["s", top(r.choice([0, 1, 1, 2, 3]))])
         elif k < 12:
-            prog.append(["a", gen_script(r, next_cid, r.choice([0, 0, 1, 2]), outs)])
+            prog.append(["a", top(r.choice([0, 0, 1, 2]))])
         elif k < 14:
             prog.append(["w", r.below(8)])
         elif k < 15:
@@ -565,6 +641,12 @@ def boundary_programs():
     out.append([["j", "unmatched"], ["s", [1, [], "v"]]])
     out.append([["a", [1, [], "v"]], ["j", "steal"], ["w", 0], ["s", [2, [], "v"]]])
     out.append([["a", [1, [["a", [2, [], "x"]], ["s", [3, [["a", [4, [], "r"]]], "v"]]], "ei"]], ["s", [5, [], "pi"]]])
+    # SystemExit / KeyboardInterrupt with the matching propagate_*_locally switch on at the serving side: routed locally by
+    # configuration (the other one, and every other BaseException, is still answered)
+    for kind, lo, other in (("SystemExit", "bs", "bk"), ("KeyboardInterrupt", "bk", "bs")):
+        out.append([["cfg", kind], ["s", [1, [], other]], ["s", [2, [], "bc"]], ["s", [3, [], lo]]])
+        out.append([["cfg", kind], ["a", [1, [], "v"]], ["a", [2, [["s", [3, [], "v"]]], lo]], ["s", [4, [], "v"]]])
+        out.append([["cfg", kind], ["s", [1, [["s", [2, [], other]]], "bb"]], ["a", [3, [], lo]]])
     return out
 
 
@@ -578,7 +660,7 @@ def stats_of(prog):
             kinds.add("nested-" + k)
             walk(sub, d + 1)
     for a in prog:
-        kinds.add(a[0] if a[0] not in ("u", "j") else a[0] + ":" + a[1])
+        kinds.add(a[0] if a[0] not in ("u", "j", "cfg") else a[0] + ":" + a[1])
         if a[0] in ("s", "a"):
             walk(a[1], 0)
     return kinds, outs, depth[0]
@@ -606,7 +688,8 @@ def correspondence(ctx):
     deadline = time.time() + ctx.budget(45, 700)
     progs = boundary_programs()
     for i in range(n_rand):
-        progs.append(gen_program(r, r.choice([1, 2, 3, 4, 6, 9]), heavy=(i % 8 == 0)))
+        local = None if i % 12 else r.choice(["SystemExit", "KeyboardInterrupt"])
+        progs.append(gen_program(r, r.choice([1, 2, 3, 4, 6, 9]), heavy=(i % 8 == 0), local=local))
     lines, runs = [], []
     for prog in progs:
         if time.time() > deadline and len(runs) >= len(boundary_programs()):
@@ -619,7 +702,7 @@ def correspondence(ctx):
             return c
         runs.append((prog, run))
         lines.append(line)
-    for o in ("v", "r", "x", "u", "e", "p"):
+    for o in ("v", "r", "x", "b", "u", "e", "p", "l"):
         lines.append("ledger dispatch " + o)
     try:
         outs = run_driver(lines, exe="drv_proto")
@@ -647,16 +730,19 @@ def correspondence(ctx):
         if kinds:
             c.signatures.add("%s|%s|%d|%d" % (",".join(sorted(kinds)), ",".join(sorted(outcomes)), depth,
                                               min(len(run.obs["wire"]) // 10, 9)))
-        if impl != mod or not run.obs["usable"]:
+        if run.local_fired():
+            c.count("configured-local-propagation:%s" % run.local.get("B"))
+        if impl != mod or not (run.obs["usable"] or run.local_fired()):
             c.disagreements.append(dict(case=dict(kind="history", program=prog), impl=impl[:1500], model=mod[:1500],
                                         ops=line[:1500], notes=run.notes[:5], usable=run.obs["usable"]))
         elif len(c.samples) < 12 and c.evaluations % 97 == 5:
             c.samples.append(dict(program=prog, ops=line[:300], outcome=impl[:300]))
     # what `_dispatch_request` does per outcome class, as the model has it (the streams above exercise each on the code)
     expect = {"v": "respond %d" % consts.MSG_REPLY, "r": "respond %d" % consts.MSG_REPLY}
-    for o in ("x", "u", "e", "p"):
+    for o in ("x", "b", "u", "e", "p"):
         expect[o] = "respond %d" % consts.MSG_EXCEPTION
-    for o, got in zip(("v", "r", "x", "u", "e", "p"), outs[len(runs):]):
+    expect["l"] = "propagate"          # re-raised locally, as configured
+    for o, got in zip(("v", "r", "x", "b", "u", "e", "p", "l"), outs[len(runs):]):
         c.evaluations += 1
         c.count("dispatch-class:" + o)
         if got != expect[o]:
@@ -681,16 +767,23 @@ def oracle(run):
     for e in rec.events:
         if e["t"] == "finish":
             out_of[(e["side"], e["cid"])] = (e["out"], e["payload"])
+    # SystemExit / KeyboardInterrupt raised where the configuration routes it locally: from then on the serving side is
+    # gone by configuration; requests it had not answered yet are not the statement's business
+    local = run.local_fired()
     for e in reqs:
         peer = "B" if e["side"] == "A" else "A"
         n = len(resp.get((peer, e["seq"]), []))
+        if local and n == 0:
+            continue
         who = "request seq %d of %s (%s)" % (e["seq"], e["side"], "cid %s" % e.get("cid") if not e.get("hidden") else
                                              "handler %s" % e.get("handler"))
         if n != 1:
             sig = "C08:no-response" if n == 0 else "C08:duplicate-response"
             if n == 0 and not e.get("hidden"):
                 o = out_of.get((peer, e.get("cid")), ("?", 0))[0]
-                if o == "p":
+                if o == "b":
+                    sig = "C08:baseexception-no-response"
+                elif o == "p":
                     sig = "C08:unserializable-exception-no-response"
                 elif o == "e":
                     sig = "C08:unencodable-result-no-response"
@@ -714,7 +807,7 @@ def oracle(run):
         if e.get("cid") is not None and (peer, e["cid"]) in out_of:
             o, p = out_of[(peer, e["cid"])]
             want = {"v": "R", "r": "R"}.get(o, "X")
-            if kind != want or (o in ("v", "r", "x") and payload != p):
+            if kind != want or (o in ("v", "r", "x", "b") and payload != p):
                 return ("%s: handler produced %s/%d, requester got %s/%d" % (who, o, p, kind, payload), "C08:misrouted")
     # a duplicate hand-built response for an answered request must not reach anybody
     for cid, (first, now) in obs.get("final", {}).items():
@@ -724,6 +817,8 @@ def oracle(run):
     for (side, key), lst in run.outcomes.items():
         if len(lst) > 1:
             return ("request %s of %s was given %d outcomes" % (key, side, len(lst)), "C08:requester-outcomes")
+    if local:
+        return None
     if not obs["usable"] or obs["deadA"] == "T" or obs["deadB"] == "T":
         return ("connection not usable after the stream (final call ok: %s, closed A=%s B=%s, notes %s)"
                 % (obs["usable"], obs["deadA"], obs["deadB"], run.notes[:3]), "C08:connection-unusable")
@@ -780,7 +875,8 @@ def oracle_search(ctx, corr, broken):
             return f
     i = 0
     while time.time() < deadline:
-        f = check(gen_program(r, r.choice([1, 2, 3, 5, 8]), heavy=(i % 4 == 0)))
+        f = check(gen_program(r, r.choice([1, 2, 3, 5, 8]), heavy=(i % 4 == 0),
+                              local=None if i % 10 else r.choice(["SystemExit", "KeyboardInterrupt"])))
         i += 1
         if f:
             return f
